@@ -7,7 +7,7 @@ for name in "$@"; do
   d=/verif/seeded/$name
   if ! git diff --quiet; then echo "/repo is dirty"; exit 2; fi
   git apply "$d/patch.diff" || { echo "patch $name does not apply"; continue; }
-  [ "${CHECKS:-}" = "own" ] && [ -s $d/matrix.txt ] && grep -q "^C20" $d/matrix.txt && { git -C /repo checkout -- .; echo "skip $name (full matrix present)"; continue; }
+  [ "${CHECKS:-}" = "own" ] && [ -z "${MATRIX_OUT:-}" ] && [ -s $d/matrix.txt ] && [ "$(wc -l < $d/matrix.txt)" -ge 20 ] && { git -C /repo checkout -- .; echo "skip $name (full matrix present)"; continue; }
   : > $d/${MATRIX_OUT:-matrix.txt}
   own=$(python3 -c "import json;print(json.load(open('$d/meta.json'))['breaks_property'])" 2>/dev/null || echo "${name%%-*}")
   if [ "${CHECKS:-}" = "own" ]; then list="$own"; else list="${CHECKS:-C01 C02 C03 C04 C05 C06 C07 C08 C09 C10 C11 C12 C13 C14 C15 C16 C17 C18 C19 C20}"; fi
